@@ -13,14 +13,17 @@ RULE = {
              "replaced by a scripted server) on: every script assigning one of 13 reply kinds (exact/other 2xx, 3xx, 4xx, 5xx, single-/multi-line, code-only, "
              "short line, non-digit code, disconnect at a phase start or inside a reply) to each of the 5+n phases for n=1 (13 kinds, two read chunkings, EOF and "
              "timeout), n=2 (9 kinds), n=3 (6 kinds), cut where the conversation ends; every write (HELO, MAIL, each RCPT, DATA, body, final flush, QUIT) failing "
-             "in turn on every {2xx,4xx,5xx} script for n=1..3, also with a 2.4 KB body, a partial last line and an unreadable message; every byte string over "
+             "in turn on every {2xx,4xx,5xx} script for n=1..3, also with a 2.4 KB body, a partial last line and an unreadable message; message sizes 1015..1026 "
+             "(around the 1024-byte output buffer) x each write from DATA to QUIT failing x final reply 2xx/4xx/5xx; every byte string over "
              "{2,5,0,4,-,LF,CR,SP} up to length 5 as the greeting / MAIL reply / final-dot reply; seeded random conversations (random codes, up to 5 lines, "
              "NUL/CR/8-bit text, >5000-byte texts, random cut, 1-8 recipients, random failing write). The real qmail-rspawn.c report() on every output over "
              "{r,h,s,K,Z,D,x,NUL} up to length 6 with exit 0 and, for length <=2, every exit status 0..255 x {no signal, 1, 9, 11, 127, core flag}; and on the "
              "output of every smtp() run. The real main() of qmail-remote from the DNS result on (control files, resolver, ipme, tcpto, connect scripted): every lookup "
              "result x every list of up to 3 addresses (pref x is-me x tcpto-skip x connects/refused/timeout) x {good server, 554 greeting, silent server, failing write}. "
              "Compared with the Lean models smtpRun/rreport/mainRun (report bytes, bytes received by the server, exit status, relayed line, tcpto_err calls); "
-             "oracle = kSoundQ/rcptOrder/verdictOKq(expect)/wireOrderQ/preOK/hostNamed/rspawnSound/rspawnClasses/noUpgrade on the implementation's output, reading the stream line by line; "
+             "oracle = kSound/rcptOrder/verdictOK(expect), strict also when the QUIT write fails/wireOrderQ/preOK/hostNamed/rspawnSound/rspawnClasses/noUpgrade/relayWithin on the "
+             "implementation's output, reading the stream line by line; whether a failing write inside blast() is critical (must be flagged 'Possible duplicate!') is decided from the "
+             "bytes of that write (does it carry the last byte of the encoded message?), not from the client's flagcritical; "
              "non-trivial = distinct input whose verdict is not K or which has a multi-line reply (S), distinct exit-0 output containing NUL (R)",
 }
 RULE["thorough"] = RULE["quick"].replace("n=2 (9 kinds), n=3 (6 kinds)", "n=2 (13 kinds), n=3 (9 kinds)").replace("up to length 5 as", "up to length 6 as").replace("up to length 6 with exit 0", "up to length 8 with exit 0")
@@ -29,7 +32,8 @@ ASSUME = [
     "the server is a byte stream plus the point where reads start failing and the write that fails; timeoutread/timeoutwrite return 0/-1 there (select/read/write themselves are not modelled)",
     "substdio buffering is transparent (several read chunkings are run); the position of buffer-full flushes inside the body is observed, not modelled",
     "main() is run from dns_mxip's return value on: control files (helohost me.example, no smtproutes), the resolver, ipme, tcpto's file and connect() are scripted answers; addrmangle is run on plain addresses only",
-    "when the failing write is the final QUIT the oracle accepts both the current behaviour (Z connection died) and the verdict already decided (notes/C09.md observation 1)",
+    "the model is told on which side of 'flagcritical = 1' a failing write inside blast() happened (the 1024-byte buffering of smtpto is not modelled); the oracle does not use that label",
+    "open finding C09-quit-write-failure (a failing QUIT write replaces a decided K or D by 'Z connection died'): the oracle is strict there; exactly these cases are tagged by the driver and reported as KNOWN-FINDING once the entry is in known_findings.json (VIOLATION until then)",
     "report() is called with the complete output and the wait status of qmail-remote (spawn.c main loop not modelled); in the harness the collected output is followed by '!' NUL and an ASan red zone, so any read past its end is visible",
     "unsigned long is 64 bits (the verdict comparisons are width-independent, Nq.Lemmas.RemoteSmtp)",
 ]
@@ -44,6 +48,11 @@ def case_line(d):
     return "S %s %s %s %s %s %s %s %s %s %s" % (d.get("ip", "c0000219"), d.get("helo", "-"), d.get("sender", "-"), d.get("rcpts", "-"),
                                                 d.get("msg", "-"), d.get("msgerr", "0"), d.get("in", "-"), d.get("chunk", "0"),
                                                 d.get("wk", "0"), d.get("endmode", "0"))
+
+
+def is_known(line):
+    """an ORACLE line that reproduces an open entry of known_findings.json (matched on the tag the driver computes from the case)"""
+    return any(kf.get("match") and kf["match"] in line for kf in nqlib.known_findings(PROP))
 
 
 def mutations(dis, seed, per=300):
@@ -114,11 +123,21 @@ def main():
                 o2 = run_pipeline(["%s - < %s" % (h, tf)], drv)
                 st2, _, _, or2, _ = parse_driver_output(o2)
                 c.cov["search_cases"] = st2.get("cases", 0)
+                or2 = [x for x in or2 if not is_known(x)]
                 return shortest(or2) if or2 else None
         except Exception as ex:
             errors.append(str(ex))
     else:
         errors.append("build failed: " + "\n".join(c.notes)[-3000:])
+    # open known findings: the shortest reproducing case goes through Check.violation (prints KNOWN-FINDING once, suppresses exactly
+    # the tagged cases); every other oracle failure goes to the standard verdict
+    known = [x for x in oracle if is_known(x)]
+    oracle = [x for x in oracle if not is_known(x)]
+    if known:
+        k0 = shortest(known)
+        c.violation("property oracle fails on the implementation's output (listed known finding)",
+                    {"failing_case": kv(k0), "raw": k0[:4000], "stdin_case": case_line(kv(k0)), "cases": len(known)}, found_input=True)
+    c.cov["known_finding_cases"] = len(known)
     c.cov["evaluations"] = int(stats.get("cases", 0))
     c.cov["distinct_nontrivial"] = int(stats.get("distinct_nontrivial", 0))
     c.cov["traces_validated_against_impl"] = max(0, int(stats.get("cases", 0)) - int(stats.get("disagree", 0)))
